@@ -14,7 +14,7 @@ import ast
 from .. import astutil as A
 from ..loader import AnalysisError
 from .c04 import typing_sites
-from .c06 import _dist_remask, _norm, buffer_protocol, collective_uniformity
+from .c06 import _dist_remask, _norm, allocation_forwards_request, buffer_protocol, collective_uniformity, comm_dtype_table, mesh_dimension_roles
 from .sib import FULLY, HSDP, HYB, dist_pairs, sibling_pairs
 
 
@@ -90,6 +90,10 @@ def run(ctx, rep) -> None:
     rep.attempt("filter_agreement", filter_agreement, ctx, rep, "C08.1")
     rep.attempt("collective_uniformity", collective_uniformity, ctx, rep, "C08.3", {"HybridShardDistributor"})
     rep.attempt("buffer_protocol", buffer_protocol, ctx, rep, "C08.3", HYB)
+    rep.rule("C08.5", "communication dtype table, allocation forwarding and mesh-dimension roles of the HybridShard distributor")
+    rep.attempt("comm_dtype_table", comm_dtype_table, ctx, rep, "C08.5", HYB)
+    rep.attempt("allocation_forwards_request", allocation_forwards_request, ctx, rep, "C08.5", HYB)
+    rep.attempt("mesh_dimension_roles", mesh_dimension_roles, ctx, rep, "C08.5", HYB, "_hybrid_shard_device_mesh")
     from .c14 import assignment_determinism, buffer_views, ownership
 
     rep.attempt("ownership", ownership, ctx, rep, "C08.3", [HYB])
